@@ -759,6 +759,15 @@ func c02History(r *RunCtx, run int) error {
 			r.Hist("setup", "retried post in the same block: "+res.Out)
 		}
 	}
+	// every third history: another account posts the same content in the same block (its own file: files are keyed by
+	// owner as well), pays for it at once and finds nobody to hold it - the chain drops that copy after its first
+	// window, or its owner deletes it.  The holder of the first copy proves on and has nothing to do with it
+	if run%3 == 1 {
+		other := Acct(4)
+		_ = e.Fund(other, "ujkl", 100_000_000_000)
+		res := e.Run(&storagetypes.MsgPostFile{Creator: other.String(), Merkle: f.root, FileSize: size, ProofType: proofType, MaxProofs: 3, Expires: start + 14_400*30, Note: "{}"})
+		r.Hist("setup", "the same content posted by another account in the same block: "+res.Out)
+	}
 	hh := &c02Hist{r: r, e: e, owner: ownerS, f: f, start: start}
 	hh.log("PostFile", start, map[string]interface{}{"owner": ownerS, "expires": expires, "size": size, "proof_window": pw, "check_window": cw, "chunk_size": chunk})
 	r.Hist("params", fmt.Sprintf("pw=%d/cw=%d", pw, cw))
